@@ -228,7 +228,7 @@ func factsImpl(repo, out, js string) {
 						if u, ok := a.(*ssa.UnOp); ok && u.Op == token.MUL {
 							if g, ok := u.X.(*ssa.Global); ok {
 								switch g.Type().(*types.Pointer).Elem().Underlying().(type) {
-								case *types.Pointer, *types.Map, *types.Chan:
+								case *types.Pointer, *types.Map, *types.Chan, *types.Slice:
 									cn := "?"
 									if cal := c.Common().StaticCallee(); cal != nil {
 										cn = shortFn(cal)
